@@ -16,113 +16,119 @@ use tower_lsp::lsp_types::Position;
 
 pub(super) const K: usize = 3;
 
+/// text of exactly n = len chars (n is a CONSTANT per harness: a symbolic length doubles CBMC's memory)
 pub(super) fn text_of(chars: &[char; K], n: usize) -> String {
     let mut s = String::new();
-    let mut i = 0;
-    while i < n {
-        s.push(chars[i]);
-        i += 1;
-    }
+    if n > 0 { s.push(chars[0]); }
+    if n > 1 { s.push(chars[1]); }
+    if n > 2 { s.push(chars[2]); }
     s
 }
 
 pub(super) fn ref_line(chars: &[char; K], k: usize) -> u32 {
     let mut line = 0;
-    let mut i = 0;
-    while i < k {
-        if chars[i] == '\n' {
-            line += 1;
-        }
-        i += 1;
-    }
+    if k > 0 && chars[0] == '\n' { line += 1; }
+    if k > 1 && chars[1] == '\n' { line += 1; }
+    if k > 2 && chars[2] == '\n' { line += 1; }
     line
 }
 
 pub(super) fn ref_col16(chars: &[char; K], k: usize) -> u32 {
     let mut col = 0;
-    let mut i = 0;
-    while i < k {
-        if chars[i] == '\n' {
-            col = 0;
-        } else {
-            col += chars[i].len_utf16() as u32;
-        }
-        i += 1;
-    }
+    if k > 0 { if chars[0] == '\n' { col = 0; } else { col += chars[0].len_utf16() as u32; } }
+    if k > 1 { if chars[1] == '\n' { col = 0; } else { col += chars[1].len_utf16() as u32; } }
+    if k > 2 { if chars[2] == '\n' { col = 0; } else { col += chars[2].len_utf16() as u32; } }
     col
 }
 
 pub(super) fn ref_byte(chars: &[char; K], k: usize) -> u32 {
     let mut b = 0;
-    let mut i = 0;
-    while i < k {
-        b += chars[i].len_utf8() as u32;
-        i += 1;
-    }
+    if k > 0 { b += chars[0].len_utf8() as u32; }
+    if k > 1 { b += chars[1].len_utf8() as u32; }
+    if k > 2 { b += chars[2].len_utf8() as u32; }
     b
 }
 
-pub(super) fn any_text() -> ([char; K], usize) {
-    let chars: [char; K] = [kani::any(), kani::any(), kani::any()];
-    let n: usize = kani::any();
-    kani::assume(n <= K);
-    (chars, n)
+pub(super) fn any_chars() -> [char; K] {
+    [kani::any(), kani::any(), kani::any()]
 }
 
-// @unit id=lsp.offset_to_line_col props=C14 tier=quick kind=bounded bound="texts of <= 3 chars, each over the full char domain; every boundary offset" timeout=1800 fn=offset_to_line_col,offset_to_position
-#[kani::proof]
-#[kani::unwind(14)]
-fn lsp_offset_to_line_col() {
-    let (chars, n) = any_text();
-    let s = text_of(&chars, n);
-    let k: usize = kani::any();
-    kani::assume(k <= n);
-    let (line, col) = offset_to_line_col(&s, ref_byte(&chars, k));
-    kani::cover!(k == 3 && chars[0].len_utf16() == 2 && chars[1] != '\n' && chars[0] != '\n');
-    kani::cover!(k == 3 && chars[1] == '\n');
-    assert!(line == ref_line(&chars, k), "line = number of newlines before the offset");
-    assert!(col == ref_col16(&chars, k), "character = UTF-16 code units since the line start");
+macro_rules! lsp_h_line_col {
+    ($name:ident, $n:expr) => {
+        #[kani::proof]
+        #[kani::unwind(14)]
+        fn $name() {
+            let chars = any_chars();
+            let s = text_of(&chars, $n);
+            let k: usize = kani::any();
+            kani::assume(k <= $n);
+            let (line, col) = offset_to_line_col(&s, ref_byte(&chars, k));
+            kani::cover!(k == $n && chars[0].len_utf16() == 2 && chars[0] != '\n');
+            kani::cover!(k == $n && chars[0] == '\n');
+            assert!(line == ref_line(&chars, k), "line = number of newlines before the offset");
+            assert!(col == ref_col16(&chars, k), "character = UTF-16 code units since the line start");
+        }
+    };
 }
 
-// @unit id=lsp.roundtrip props=C14 tier=quick kind=bounded bound="texts of <= 3 chars, each over the full char domain; every boundary offset" timeout=1800 fn=position_to_offset,offset_to_position,offset_to_line_col
-#[kani::proof]
-#[kani::unwind(14)]
-fn lsp_roundtrip() {
-    let (chars, n) = any_text();
-    let s = text_of(&chars, n);
-    let k: usize = kani::any();
-    kani::assume(k <= n);
-    let o = ref_byte(&chars, k);
-    let p = offset_to_position(&s, o);
-    let back = position_to_offset(&s, p);
-    kani::cover!(k == 2 && chars[0].len_utf16() == 2);
-    kani::cover!(k == 3 && chars[0] == '\n' && chars[1].len_utf8() == 3);
-    assert!(back == Some(o), "offset -> position -> offset is the identity on character boundaries");
+macro_rules! lsp_h_roundtrip {
+    ($name:ident, $n:expr) => {
+        #[kani::proof]
+        #[kani::unwind(14)]
+        fn $name() {
+            let chars = any_chars();
+            let s = text_of(&chars, $n);
+            let k: usize = kani::any();
+            kani::assume(k <= $n);
+            let o = ref_byte(&chars, k);
+            let p = offset_to_position(&s, o);
+            let back = position_to_offset(&s, p);
+            kani::cover!(k == $n && chars[0].len_utf16() == 2);
+            kani::cover!(k == $n && chars[0] == '\n');
+            assert!(back == Some(o), "offset -> position -> offset is the identity on character boundaries");
+        }
+    };
 }
 
-// @unit id=lsp.position_to_offset props=C14 tier=quick kind=bounded bound="texts of <= 3 chars, each over the full char domain; every editor position (boundary, past line end, past last line)" timeout=1800 fn=position_to_offset
-#[kani::proof]
-#[kani::unwind(14)]
-fn lsp_position_to_offset() {
-    let (chars, n) = any_text();
-    let s = text_of(&chars, n);
-    // (a) the position of every boundary maps to that boundary's byte offset
-    let k: usize = kani::any();
-    kani::assume(k <= n);
-    let p = Position { line: ref_line(&chars, k), character: ref_col16(&chars, k) };
-    assert!(position_to_offset(&s, p) == Some(ref_byte(&chars, k)), "an editor position denotes the byte offset of the same character boundary");
-    // (b) a column past the end of its line clamps to the end of that line
-    let extra: u32 = kani::any();
-    kani::assume(extra >= 1 && extra <= 1000);
-    let at_line_end = k == n || chars[k] == '\n';
-    if at_line_end {
-        let q = Position { line: p.line, character: p.character + extra };
-        assert!(position_to_offset(&s, q) == Some(ref_byte(&chars, k)), "a column past the line end clamps to the line end");
-    }
-    // (c) a line past the last line does not exist
-    let last_line = ref_line(&chars, n);
-    let beyond = Position { line: last_line + extra, character: 0 };
-    assert!(position_to_offset(&s, beyond).is_none(), "a line beyond the last line has no offset");
-    kani::cover!(at_line_end && k < n);
-    kani::cover!(k == 1 && chars[0].len_utf16() == 2 && n == 3);
+macro_rules! lsp_h_position {
+    ($name:ident, $n:expr) => {
+        #[kani::proof]
+        #[kani::unwind(14)]
+        fn $name() {
+            let chars = any_chars();
+            let s = text_of(&chars, $n);
+            // (a) the position of every boundary maps to that boundary's byte offset
+            let k: usize = kani::any();
+            kani::assume(k <= $n);
+            let p = Position { line: ref_line(&chars, k), character: ref_col16(&chars, k) };
+            assert!(position_to_offset(&s, p) == Some(ref_byte(&chars, k)), "an editor position denotes the byte offset of the same character boundary");
+            // (b) a column past the end of its line clamps to the end of that line
+            let extra: u32 = kani::any();
+            kani::assume(extra >= 1 && extra <= 1000);
+            let at_line_end = k == $n || chars[k] == '\n';
+            if at_line_end {
+                let q = Position { line: p.line, character: p.character + extra };
+                assert!(position_to_offset(&s, q) == Some(ref_byte(&chars, k)), "a column past the line end clamps to the line end");
+            }
+            // (c) a line past the last line does not exist
+            let last_line = ref_line(&chars, $n);
+            let beyond = Position { line: last_line + extra, character: 0 };
+            assert!(position_to_offset(&s, beyond).is_none(), "a line beyond the last line has no offset");
+            kani::cover!(at_line_end && k < $n);
+            kani::cover!(k == 1 && chars[0].len_utf16() == 2);
+        }
+    };
 }
+
+// @unit id=lsp.offset_to_line_col props=C14 tier=quick kind=bounded bound="texts of exactly 3 chars, each over the full char domain; every boundary offset" timeout=2400 fn=offset_to_line_col,offset_to_position
+lsp_h_line_col!(lsp_offset_to_line_col, 3);
+// @unit id=lsp.roundtrip props=C14 tier=quick kind=bounded bound="texts of exactly 3 chars, each over the full char domain; every boundary offset" timeout=2400 fn=position_to_offset,offset_to_position,offset_to_line_col
+lsp_h_roundtrip!(lsp_roundtrip, 3);
+// @unit id=lsp.position_to_offset props=C14 tier=quick kind=bounded bound="texts of exactly 3 chars, each over the full char domain; every editor position (boundary, past line end, past last line)" timeout=2400 fn=position_to_offset
+lsp_h_position!(lsp_position_to_offset, 3);
+// @unit id=lsp.offset_to_line_col.n2 props=C14 tier=thorough kind=bounded bound="texts of exactly 2 chars, full char domain" timeout=2400 fn=offset_to_line_col,offset_to_position
+lsp_h_line_col!(lsp_offset_to_line_col_n2, 2);
+// @unit id=lsp.roundtrip.n2 props=C14 tier=thorough kind=bounded bound="texts of exactly 2 chars, full char domain" timeout=2400 fn=position_to_offset,offset_to_position,offset_to_line_col
+lsp_h_roundtrip!(lsp_roundtrip_n2, 2);
+// @unit id=lsp.position_to_offset.n2 props=C14 tier=thorough kind=bounded bound="texts of exactly 2 chars, full char domain" timeout=2400 fn=position_to_offset
+lsp_h_position!(lsp_position_to_offset_n2, 2);
